@@ -61,4 +61,24 @@ theorem reachable_histInv {cfg : Config} {s : RState} (h : Reachable2 cfg s) : H
   obtain ⟨ops, rfl⟩ := h
   exact (HistInv.init cfg).step (run_hist ops _)
 
+/-! kernel-executable form of `run2` (see the end of Rp1_Decomp.lean) for closed examples -/
+
+def run2X (s : RState) : List (Op × List Choice) → RState
+  | [] => s
+  | (op, choices) :: rest =>
+    match stepX { s with oracle := choices } op with
+    | .error _ => s
+    | .ok (s', _) => run2X s' rest
+
+theorem run2_eq_run2X : ∀ (ops : List (Op × List Choice)) (s : RState), run2 s ops = run2X s ops
+  | [], s => rfl
+  | (op, ch) :: rest, s => by
+    simp only [run2, run2X, step_eqX]
+    split
+    · rfl
+    · exact run2_eq_run2X rest _
+
+theorem Reachable2.ofX {cfg : Config} {s : RState} (ops : List (Op × List Choice))
+    (h : run2X (init cfg) ops = s) : Reachable2 cfg s := ⟨ops, by rw [run2_eq_run2X]; exact h⟩
+
 end Router
